@@ -98,6 +98,11 @@ def main():
                     bad += 1
                     line = [l for l in (p.stdout + p.stderr).splitlines() if l.startswith(("violation:", "HARNESS"))][:1]
                     row.append(f"{prop}:ALARM(rc={p.returncode}) {line[0][:160] if line else ''}")
+                    # keep what is needed to look into the alarm
+                    keep = os.path.join("/tmp", f"benign_alarm_{name}_{prop}")
+                    shutil.rmtree(keep, ignore_errors=True)
+                    shutil.copytree(tmp, keep)
+                    open(os.path.join(keep, "output.txt"), "w").write(p.stdout + p.stderr)
                 else:
                     row.append(f"{prop}:silent")
             print(f"{name:40s} " + " ".join(row))
